@@ -407,33 +407,98 @@ def o_acc(T, m, ex):
 
 
 def o_kinds(case, call):
-    """docs "argument kinds": POSITIONAL / KEYWORD / DEFAULT / UNKNOWN per parameter, and the member each
-    parameter holds; None if CPython would reject the call shape"""
-    import inspect
-
+    """docs "argument kinds": POSITIONAL / KEYWORD / DEFAULT / UNKNOWN per parameter, computed from the call
+    shape alone (never from bind_arguments), and the member each parameter holds; None if the call shape cannot
+    be bound.  For a call with `*s` / `**d` of unknown size the documented table is applied:
+      - positional-only with a default, not filled by an explicit positional, call has *args  -> UNKNOWN
+      - keyword-only with a default, not named, call has **kwargs                              -> UNKNOWN
+      - positional-or-keyword matching either of the above                                     -> UNKNOWN
+      - positional-or-keyword (default or not) not explicitly given, call has both             -> UNKNOWN
+      - without a default the parameter must come from the star argument: POSITIONAL (*args) / KEYWORD (**kwargs)
+      - *args / **kwargs parameters: POSITIONAL / KEYWORD if arguments may be provided, else DEFAULT
+    An argument taken from `*s` / `**d` has the element type of s / d (int in the generated calls)."""
     params = case["params"]
-    ns = {}
-    exec(f"def f({re.sub(r': (object|int)', '', render_params(params))}): pass", ns)
-    sig = inspect.signature(ns["f"])
+    star, dstar = bool(call.get("star")), bool(call.get("dstar"))
     npos = len(call["pos"])
-    try:
-        ba = sig.bind(*range(npos), **{k: npos + i for i, (k, _) in enumerate(call["kw"])})
-    except TypeError:
-        return None
     tys = list(call["pos"]) + [t for _, t in call["kw"]]
+    kwidx = {k: npos + i for i, (k, _) in enumerate(call["kw"])}
+    if len(kwidx) != len(call["kw"]):
+        return None
     out = {}
+    nextpos = 0
+    used_kw = set()
+    has_va = any(p["kind"] == "va" for p in params)
+    has_vk = any(p["kind"] == "vk" for p in params)
     for p in params:
-        n = p["name"]
-        if p["kind"] in ("va", "vk"):
-            got = ba.arguments.get(n)
-            out[n] = ("POSITIONAL" if p["kind"] == "va" else "KEYWORD") if got else "DEFAULT", None
-            continue
-        if n in ba.arguments:
-            ai = ba.arguments[n]
-            out[n] = ("POSITIONAL" if ai < npos else "KEYWORD"), tys[ai]
-        else:
-            d = p["default"]
-            out[n] = "DEFAULT", ("int" if d == "dots" else d)
+        n, k, d = p["name"], p["kind"], p["default"]
+        dval = "int" if d == "dots" else d
+        if k in ("po", "pk") and nextpos < npos:
+            if k == "pk" and n in kwidx:
+                return None  # given twice
+            out[n] = ("POSITIONAL", tys[nextpos])
+            nextpos += 1
+        elif k == "pk" and n in kwidx:
+            out[n] = ("KEYWORD", tys[kwidx[n]])
+            used_kw.add(n)
+        elif k == "ko" and n in kwidx:
+            out[n] = ("KEYWORD", tys[kwidx[n]])
+            used_kw.add(n)
+        elif k == "po":
+            if star:
+                out[n] = ("UNKNOWN" if d is not None else "POSITIONAL", "int")
+            elif d is not None:
+                out[n] = ("DEFAULT", dval)
+            else:
+                return None
+        elif k == "pk":
+            if star and dstar:
+                out[n] = ("UNKNOWN", "int")
+            elif star:
+                out[n] = ("UNKNOWN" if d is not None else "POSITIONAL", "int")
+            elif dstar:
+                out[n] = ("UNKNOWN" if d is not None else "KEYWORD", "int")
+            elif d is not None:
+                out[n] = ("DEFAULT", dval)
+            else:
+                return None
+        elif k == "ko":
+            if dstar:
+                out[n] = ("UNKNOWN" if d is not None else "KEYWORD", "int")
+            elif d is not None:
+                out[n] = ("DEFAULT", dval)
+            else:
+                return None
+        elif k == "va":
+            out[n] = ("POSITIONAL" if (npos > nextpos or star) else "DEFAULT", None)
+            nextpos = npos
+        elif k == "vk":
+            extra = [kk for kk in kwidx if kk not in used_kw and kk not in {q["name"] for q in params if q["kind"] in ("pk", "ko")}]
+            out[n] = ("KEYWORD" if (extra or dstar) else "DEFAULT", None)
+    if nextpos < npos and not has_va:
+        return None
+    names = {q["name"] for q in params if q["kind"] in ("pk", "ko")}
+    if any(kk not in names for kk in kwidx) and not has_vk:
+        return None
+    if any(q["kind"] == "po" and q["name"] in kwidx for q in params) and not has_vk:
+        return None
+    return out
+
+
+def o_kinds_checked(case, call):
+    """o_kinds, validated against CPython's own binder for calls without star arguments"""
+    out = o_kinds(case, call)
+    if not (call.get("star") or call.get("dstar")):
+        import inspect
+
+        ns = {}
+        exec(f"def f({re.sub(r': (object|int)', '', render_params(case['params']))}): pass", ns)
+        try:
+            inspect.signature(ns["f"]).bind(*range(len(call["pos"])), **{k: 0 for k, _ in call["kw"]})
+            ok = True
+        except TypeError:
+            ok = False
+        if ok != (out is not None):
+            raise AssertionError(f"harness: documented binder disagrees with CPython on {case['params']} {call}")
     return out
 
 
@@ -496,7 +561,7 @@ def o_block(stmts, kinds, sigma, errs):
 
 
 def oracle_unionfree(case, call):
-    kinds = o_kinds(case, call)
+    kinds = o_kinds_checked(case, call)
     if kinds is None:
         return None
     sigma = {n: t for n, (_, t) in kinds.items()}
@@ -560,7 +625,8 @@ def coq_header(acc, narrow):
         "Definition acc (T m : nat) (ex : bool) : bool := nth m (nth (if ex then 0 else 1) (nth T acc_tbl []) []) false.\n"
         "Definition narrow (T m : nat) : list nat := nth m (nth T nar_tbl []) [].\n"
         "Definition pos_of (l : list posn) (v : nat) : posn := nth v l PDefault.\n"
-        "Definition run (l : list posn) (rho : varmap) (b : block) := evaluate acc narrow (pos_of l) rho b 4.\n"
+        f"Definition is_any (m : nat) : bool := m =? {ATOMS.index('Any')}.\n"
+        "Definition run (l : list posn) (rho : varmap) (b : block) := evaluate acc narrow (pos_of l) is_any rho b 4.\n"
     )
 
 
@@ -732,10 +798,18 @@ def gen_call(rng, case):
         else:
             pos.append(ty(allowed))
     r = rng.random()
-    if r < 0.06:
+    if r < 0.09:
         star = True
-    elif r < 0.10:
+    elif r < 0.18:
         dstar = True
+    elif r < 0.21:
+        star = dstar = True
+    if (star or dstar) and rng.random() < 0.6:
+        # leave parameters to be filled from the star arguments: drop trailing explicit arguments
+        if star and pos and rng.random() < 0.7:
+            pos = pos[: rng.randrange(len(pos))]
+        if dstar and kw and rng.random() < 0.7:
+            kw = kw[: rng.randrange(len(kw))]
     call = {"pos": pos, "kw": kw, "star": star, "dstar": dstar}
     kinds = o_kinds(case, call)
     if kinds is not None:
@@ -820,6 +894,13 @@ def fallthrough_after_return(stmts):
     return False
 
 
+def any_union_guard(case, call):
+    """guard of finding C20-any-union-fallthrough (= hypothesis "no Any member" of C20_union_distributes fails):
+    the union argument has an Any member"""
+    tys = list(call["pos"]) + [t for _, t in call["kw"]]
+    return any((not isinstance(t, str)) and "Any" in t[1] for t in tys)
+
+
 def load_corpus():
     p = HERE / "corpus" / "C20.json"
     return json.loads(p.read_text()) if p.exists() else []
@@ -844,7 +925,7 @@ def run(tier: str, replay: str | None = None):
         cases = [{"params": c["params"], "ret": c["ret"], "body": c["body"], "calls": [c["call"]] if "call" in c else c["calls"]}]
     else:
         cases = [dict(c) for c in load_corpus()]
-        n = 1400 if tier == "quick" else 9000
+        n = 900 if tier == "quick" else 9000
         for _ in range(n):
             cases.append(gen_case(rng, 6))
     # add the member calls of every one-union call (oracle (b))
@@ -954,17 +1035,17 @@ def run(tier: str, replay: str | None = None):
                 distinct.add(json.dumps([case["params"], case["body"], call], sort_keys=True))
                 if m != dset:
                     corr.append((ci, ki, dset, m))
-            if star:
-                continue
             if nun == 0:
                 want = oracle_unionfree(case, call)
+                if want is None and star:
+                    continue  # a star call the documented table cannot bind: not decided here
                 if want is None:
                     failing.append((ci, ki, "call accepted although CPython rejects its shape", dset, None))
                 elif want != dset:
                     failing.append((ci, ki, "result differs from the documented interpreter", dset, want))
                 elif len(samples) < 4 and len(case["body"]) > 1:
                     samples.append({"function": render_function("f", case), "call": call, "impl": dset})
-            elif nun == 1:
+            elif nun == 1 and not star:
                 want_r, want_e, ok = set(), set(), True
                 for mc in member_calls(call):
                     kj = index.get(json.dumps(mc, sort_keys=True))
@@ -979,10 +1060,10 @@ def run(tier: str, replay: str | None = None):
                 want = {"rets": sorted(want_r), "errs": sorted(want_e)}
                 if want != dset:
                     sup = set(dset["rets"]) >= want_r and set(dset["errs"]) >= want_e
-                    if sup and fallthrough_after_return(case["body"]) and m is not None and m == dset:
-                        known.append(("C20-fallthrough-not-narrowed", ci, ki))
-                    elif sup and fallthrough_after_return(case["body"]) and m is None and not model_ok:
-                        undecided += 1  # inside the finding's guard, but the model could not be built: the broken obligation is reported instead
+                    if sup and any_union_guard(case, call) and m is not None and m == dset:
+                        known.append(("C20-any-union-fallthrough", ci, ki))
+                    elif sup and any_union_guard(case, call) and m is None and not model_ok:
+                        undecided += 1
                     else:
                         failing.append((ci, ki, "union call is not the union of the member calls" + (" (superset)" if sup else " (members' results missing: unsound)"), dset, want))
 
